@@ -119,6 +119,26 @@ PLANS["C13"] = {
                     "never-success-when-too-short) is demanded"],
 }
 
+PLANS["C18"] = {
+    "level": "exploration",
+    "parts": [("slc", "directed", None, None), ("slc", "gen", 3000, 60000)],
+    "budget_s": {"quick": 90, "thorough": 900},
+    "rule": ("scenario = generated SLC data table (O0, I1, S2, B3, T4, C5, N7, F8 + extra N/B/F/L/T/C files up to number 255) + "
+             "call list of reads/writes over addresses drawn from the documented grammar (word, /bit, Bf/n, {count}, T/C "
+             "sub-elements on reads, I/O slot.word, upper/lower case) and planted out-of-range / unsupported addresses; directed: "
+             "every Bf/n bit number (all 0..4095 in thorough, every 7th + boundaries in quick) and every element 0..255 x bit of "
+             "full N files incl. file 255, read and write. distinct = distinct (call kind, outcome, address forms, file types)"),
+    "real": ["pycomm3.socket_.Socket", "pycomm3.CIPDriver", "pycomm3.SLCDriver", "pycomm3.cip.pccc codecs", "packets"],
+    "stub": ["socket module (SimNet)", "os.urandom (seeded)", "EtherNet/IP device + connection manager + SLC controller "
+             "(reference models, no pycomm3 import)"],
+    "assumptions": ["PCCC commands are parsed per 1770-RM516 incl. R-PCCC-FF (address byte 0xFF = two-byte address follows) "
+                    "and R-PCCC-SIZE (masked write carries exactly `size` data bytes)",
+                    "I/O files are addressed logical-by-slot with a per-run number of words per slot",
+                    "writes to timer/counter sub-elements and bit forms of float files are not generated (statement covers reads)"],
+}
+PLANS["C11"]["parts"].append(("slc", "gen", 500, 10000))
+PLANS["C17"]["parts"].append(("slc", "gen", 500, 10000))
+
 
 def plan_for(prop, tier):
     p = PLANS.get(prop)
